@@ -271,7 +271,10 @@ func projectColumns(selectList sql.SelectList, qfields storage.Fields, rows []*s
 				field = &storage.Field{Column: "count(*)"}
 			}
 		case sql.ColumnReference:
-			field = qfields[lookup[elem]]
+			// copy the descriptor: an alias must not rename the same column
+			// selected a second time (SELECT n AS x, n AS y)
+			f := *qfields[lookup[elem]]
+			field = &f
 		default:
 			field = &storage.Field{Column: "?"}
 		}
